@@ -72,6 +72,7 @@ def run_sync(b: Built, steps: List[dict]) -> List[Tuple[dict, list]]:
     b.ctl.fuel = b.defn["fuel"]
     for st in steps:
         b.ctl.gv = dict(st["gv"])
+        b.ctl.faults = set(st.get("faults") or [])
         b.ctl.log = []
         b.ctl.events = 0
         err: list = []
@@ -124,6 +125,7 @@ async def _run_async(b: Built, steps: List[dict]):
     b.ctl.fuel = b.defn["fuel"]
     for st in steps:
         b.ctl.gv = dict(st["gv"])
+        b.ctl.faults = set(st.get("faults") or [])
         b.ctl.log = []
         b.ctl.events = 0
         err: list = []
